@@ -78,4 +78,10 @@ def run(chk):
         common.linear_types_rule(chk, P, "C08.R4:halves-are-linear", "the channel halves cannot be copied (dropping one copy would close the channel under the other)",
                                  {"emit_batcher::Sender": "Drop for Sender closes the channel: the first copy dropped stops the receiver while the others still send",
                                   "emit_batcher::Receiver": "two receivers would take batches concurrently and both clear is_in_batch"})
+    from . import shapes
+    shapes.block_in_place_polarity(chk, P, "C08.R5:block-in-place-polarity")
+    shapes.trigger_starts_unset(chk, P, "C08.R4:trigger-starts-unset")
+    shapes.retry_when_nonempty(chk, P, "C08.R2:retry-when-nonempty")
+    shapes.remaining_time_shrinks(chk, P, "C08.R5:remaining-time-shrinks",
+                                  ["emit_batcher::sync::Trigger::wait_timeout"] + ([] if getattr(chk, "_overlay", None) else ["<emit_otlp::client::OtlpInner as emit_core::emitter::Emitter>::blocking_flush"]))
     return chk
